@@ -219,7 +219,9 @@ def obsCase (e : Option Err) (refs : List (Option Err)) (trim : List Str := []) 
       pList ["verbs0", pVerbs specs e],
       pList ["verbs1", pOpt (pVerbs specs) h1],
       pList ["isany", pBool (isAnyB Full e refs)],
-      pList ["isanyhalf", pBool (isAnyB Full e (refs.take (refs.length / 2)))]]
+      pList ["isanyhalf", pBool (isAnyB Full e (refs.take (refs.length / 2)))],
+      pList ["isanyx", pList ([refs.drop (refs.length / 2), (refs.drop (refs.length / 2)).reverse,
+        refs.drop (refs.length - 4), (refs.drop (refs.length - 4)).reverse].map (fun l => pBool (isAnyB Full e l)))]]
 
 /-- C04 streams: origin -> process Q lacking `unknown` -> knowing process; and origin -> knowing directly -/
 def obsCase4 (e : Err) (unknown : List Str) : String :=
